@@ -1,6 +1,8 @@
 import CoapVerif.Lemmas.Block
 import CoapVerif.Lemmas.BlockRecv
 import CoapVerif.Lemmas.BlockCrcv
+import CoapVerif.Lemmas.BlockCrcvHostile
+import CoapVerif.Lemmas.BlockSrcvHostile
 import CoapVerif.Lemmas.BlockXmit
 import CoapVerif.Lemmas.BlockRtag
 import CoapVerif.Lemmas.BlockNet
@@ -179,18 +181,96 @@ set_option maxRecDepth 8000 in
 example : ((srcvStep 4 0 1 none 0 1 2 (List.replicate 64 7) none).1.map (·.recv)) = some [(0, 1)] := by decide
 
 
+/-- HOSTILE CLIENT, server side, single-body mode, no hypothesis on the requests beyond what `coap_get_block_b` guarantees
+(`block_opt_bounds`: NUM < 2^20, SZX ≤ 6): for EVERY sequence of Block1 requests `ds` — any NUM, More bit, SZX (changing in
+the middle of the transfer in either direction), Size1 absent / too small / too large / anything up to 2^32-1 and beyond,
+any payload length (empty, short, oversized), any order, duplicates, blocks far beyond the end, any server block-size
+limit — whenever the `i`-th request makes `coap_handle_request_put_block` hand a body `(b, l)` to the request handler,
+`l` bytes are really there and EVERY one of them is a byte that one of the requests received so far (`ds.take (i+1)`)
+carried for exactly that offset (`SentAt1`).  No never-written byte of the reassembly buffer (`junk`) is delivered.
+Invariant `HSInv` by induction over the run; needs the fixes 11109ea (a block in a SMALLER size than the tracked one:
+the ranges are rescaled instead of mixing units — `HSInv_rescale`), cb35487 (a payload that is not a multiple of the
+block size must end at or beyond the total known, and nothing may reach beyond the total once the block without More
+has been seen: `HSFull` holds until then and the total is frozen afterwards), 8abfc44 (the block count is not truncated
+to 32 bits) and 0b3fb08.  Before them: `srcv2 0 256 9 256 0.1.3,1.0.0,1.0.3`, `srcv 0 32 189 32 0:1,1:0:4`,
+`srcv 0 40 1 4294967295 0:1,1:0:16` handed 128 / 12 / 4294967263 never-written bytes to the handler. -/
+theorem block1_hostile_no_unwritten_bytes (cap : Nat) (junk : UInt8) (maxBlk : Nat) (ds : List Dgram)
+    (hds : ∀ d, d ∈ ds → d.num < 2 ^ 20 ∧ d.szx ≤ 6) (i : Nat) (b : Bytes) (l : Nat)
+    (h : (runSrcv cap junk maxBlk none ds)[i]? = some (SrcvOut.deliver b l)) :
+    l ≤ b.length ∧ ∀ o, o < l → ∃ v, b[o]? = some v ∧ SentIn1 (ds.take (i + 1)) o v := by
+  have := runSrcv_hostile cap junk maxBlk ds none [] (by intro s hs; cases hs) hds i b l h
+  simpa using this
+
+/-- … so if every payload the client ever sends is cut from ONE byte string `B` at the offset its Block1 option names
+(whatever SZX on each request, any More bit, any Size1, payloads shorter than the block), the body handed to the
+request handler is a prefix of `B`: the oracle of the T2 ops `srcv` / `srcv2`. -/
+theorem block1_hostile_prefix_of_body (cap : Nat) (junk : UInt8) (maxBlk : Nat) (ds : List Dgram) (B : Bytes)
+    (hds : ∀ d, d ∈ ds → d.num < 2 ^ 20 ∧ d.szx ≤ 6)
+    (hB : ∀ d, d ∈ ds → ∀ o v, SentAt1 d o v → B[o]? = some v) (i : Nat) (b : Bytes) (l : Nat)
+    (h : (runSrcv cap junk maxBlk none ds)[i]? = some (SrcvOut.deliver b l)) :
+    l ≤ B.length ∧ b.take l = B.take l := by
+  obtain ⟨h1, h2⟩ := block1_hostile_no_unwritten_bytes cap junk maxBlk ds hds i b l h
+  have hbyte : ∀ o, o < l → b[o]? = B[o]? := by
+    intro o ho
+    obtain ⟨v, e1, d, hd, hs⟩ := h2 o ho
+    rw [e1, hB d (List.mem_of_mem_take hd) o v hs]
+  have hl : l ≤ B.length := by
+    cases l with
+    | zero => exact Nat.zero_le _
+    | succ n =>
+      have hn := hbyte n (Nat.lt_succ_self n)
+      apply Classical.byContradiction
+      intro hh
+      have e1 : B[n]? = none := by rw [List.getElem?_eq_none_iff]; omega
+      have e2 : b[n]? = some b[n] := List.getElem?_eq_getElem (by omega)
+      rw [e1, e2] at hn
+      cases hn
+  refine ⟨hl, ?_⟩
+  apply List.ext_getElem?
+  intro o
+  rw [List.getElem?_take, List.getElem?_take]
+  by_cases ho : o < l
+  · rw [if_pos ho, if_pos ho]; exact hbyte o ho
+  · rw [if_neg ho, if_neg ho]
+
+set_option maxRecDepth 100000 in
+/-- FORMER WITNESS (f), now the fixed behaviour (11109ea; `srcv2 0 256 9 256 0.1.3,1.0.0,1.0.3`): block 0 of 128 bytes
+(Size1 256), then "block 1 of 16 bytes", then block 1 of 128 bytes.  Before the fix the 16-byte block was recorded as
+block 1 in 128-byte units, the real block 1 was then a duplicate (not stored), and 256 bytes — 128 of them never
+written — were delivered; now the ranges are rescaled ([0,0] → [0,7]) and the body arrives intact -/
+example :
+    let body : Bytes := (List.range 256).map (fun i => UInt8.ofNat i)
+    let ds : List Dgram := [⟨0, 1, 3, slice body 3 0, some 256⟩, ⟨1, 0, 0, slice body 0 1, some 256⟩, ⟨1, 0, 3, slice body 3 1, some 256⟩]
+    runSrcv 4 0xEE 0 none ds = [.cont, .cont, .deliver body 256] ∧
+    ((srcvStep 4 0xEE 0 (srcvStep 4 0xEE 0 none 0 1 3 (slice body 3 0) (some 256)).1 1 0 0 (slice body 0 1) (some 256)).1.map
+      fun s => (s.recv, s.szx)) = some ([(0, 7)], 0) := by decide
+
+set_option maxRecDepth 100000 in
+/-- FORMER WITNESS (g), now the fixed behaviour (cb35487; `srcv 0 32 189 32 0:1,1:0:4`): two requests — block 0 (16 bytes,
+More, Size1 32) and block 1 with 4 bytes, no More — used to hand 32 bytes, 12 of them never written, to the request
+handler; now the short block that does not reach the announced total is answered by 4.08 and the state is dropped -/
+example :
+    let body : Bytes := (List.range 32).map (fun i => UInt8.ofNat i)
+    runSrcv 4 0xEE 0 none [⟨0, 1, 0, slice body 0 0, some 32⟩, ⟨1, 0, 0, (slice body 0 1).take 4, some 32⟩] = [.cont, .fail] ∧
+    runSrcv 4 0xEE 0 none [⟨0, 1, 0, slice body 0 0, none⟩, ⟨1, 0, 0, (slice body 0 1).take 4, none⟩] =
+      [.cont, .deliver (body.take 20) 20] := by decide
+
+/-- FORMER DEFECT (h) (8abfc44; `srcv 0 40 1 4294967295 0:1,1:0:16` delivered a 4294967295-byte body): with Size1 = 2^32-1
+and 16-byte blocks the truncated count was 0 blocks, the count used now is 2^28 -/
+example : (4294967295 + 16 - 1) % 2 ^ 32 / 16 = 0 ∧ totalBlocks 4294967295 16 = 268435456 := by decide
+
+
 /-! ## Layer B, client side: the Block2 receive path (coap_handle_response_get_block), both delivery modes
 
 M = `crcvStep` (Model/BlockCrcv.lean), tied to the real function by the T2 op `crcv`.  The theorems below are about the
 receiver automaton alone, for EVERY sequence of responses (any order, duplicates, losses, any ETag / Content-Format
 on each of them, restarts after an ETag change included) each of which carries the server's slice for its NUM/SZX
 (`Genuine2`); `never_wrong_body_block2_composed_partial` further down removes that hypothesis for a libcoap server.
-Two things a foreign server could do are excluded by `Genuine2` because the C code has no defence against them
-(confirmed on the real function, see design/C09.md): changing SZX in the middle of a transfer WITHOUT changing the
-ETag (block numbers are recorded in mixed units: witness below; `Genuine2` demands the tracked size only of responses
-that pass the lg_crcv's ETag tests) and announcing different Size2 values on different blocks while sending blocks
-the client did not ask for (coap_block_build_body is called with THIS response's Size2 and can shrink the buffer).
-Neither can happen with a libcoap server (`server_block2_genuine`, `B2Inv.func`). -/
+Against a server that is NOT libcoap (`Genuine2` false: SZX changed in the middle of a transfer without a new ETag, a
+different Size2 on every response together with blocks the client did not ask for, short blocks in the middle) the sender's
+body is not defined, but memory safety is (C02): `block2_hostile_no_unwritten_bytes` / `block2_hostile_prefix_of_body`
+below hold for EVERY response sequence without any hypothesis — after the fixes a8ffb89, 0b3fb08, 2e4f34e; before them
+the former witnesses (now `example`s of the fixed behaviour) delivered never-written bytes. -/
 
 /-- Block2, single-body AND per-block mode, every response sequence: a body handed to the response handler is exactly
 the server's body with its exact length (single-body); every block handed over is the server's slice at the offset
@@ -279,26 +359,112 @@ example :
     Genuine2 body none none { blk := some (0, 1, 0), payload := slice body 0 0 } 0 0 := by
   refine ⟨by decide, by decide, rfl, rfl, by intro s hs; cases hs⟩
 
+/-- HOSTILE SERVER, single-body mode, no hypothesis at all: for EVERY sequence of responses `rs` (any NUM, More bit, SZX —
+also changing in the middle of the transfer —, Size2 absent / too small / too large / different on every response, any
+ETag and Content-Format, any payload length, blocks nobody asked for, in any order), from a client without lg_crcv or
+with one set up at send time (`initial`): whenever the `i`-th response makes `coap_handle_response_get_block` hand a
+reassembled body `(d, l)` to the response handler, `l` bytes are really there and EVERY one of them is a byte that one of
+the responses received so far (`rs.take (i+1)`) carried for exactly that offset of the body (`SentAt`: the response has
+Block2 (NUM, _, SZX), the offset lies in that block, the payload holds the byte at `offset - NUM * 2^(SZX+4)`).  No byte
+of the reassembly buffer that was never written (`junk`: whatever malloc/realloc returned) is ever delivered.
+Invariant `HInv` (every byte of every recorded block is in the buffer and was sent for that offset) by induction over
+the run; needs all three fixes: responses in another size than the tracked one are refused (a8ffb89), the buffer never
+shrinks (0b3fb08), a short block is only recorded for good when it completes the body (2e4f34e). -/
+theorem block2_hostile_no_unwritten_bytes (cap : Nat) (junk : UInt8) (st : Option Crcv) (rs : List Resp)
+    (hst : ∀ s, st = some s → s.initial = true) (i : Nat) (d : Bytes) (l : Nat)
+    (h : (runCrcv true cap junk st rs)[i]? = some (CrcvOut.body d l)) :
+    l ≤ d.length ∧ ∀ o, o < l → ∃ v, d[o]? = some v ∧ SentIn (rs.take (i + 1)) o v := by
+  have := runCrcv_hostile cap junk rs st [] (by intro s hs hi; rw [hst s hs] at hi; cases hi) i d l h
+  simpa using this
+
+/-- … so if everything the server ever sends is cut from ONE byte string `B` at the offset its Block2 option names (with
+whatever SZX it likes on each response, any More bit, any Size2, payloads shorter than the block), the body handed to the
+handler is a prefix of `B`: the oracle of the T2 op `crcv` (`H0:<l>:…` must hash to the first `l` bytes of the body). -/
+theorem block2_hostile_prefix_of_body (cap : Nat) (junk : UInt8) (st : Option Crcv) (rs : List Resp) (B : Bytes)
+    (hst : ∀ s, st = some s → s.initial = true)
+    (hB : ∀ r, r ∈ rs → ∀ o v, SentAt r o v → B[o]? = some v) (i : Nat) (d : Bytes) (l : Nat)
+    (h : (runCrcv true cap junk st rs)[i]? = some (CrcvOut.body d l)) :
+    l ≤ B.length ∧ d.take l = B.take l := by
+  obtain ⟨h1, h2⟩ := block2_hostile_no_unwritten_bytes cap junk st rs hst i d l h
+  have hbyte : ∀ o, o < l → d[o]? = B[o]? := by
+    intro o ho
+    obtain ⟨v, e1, r, hr, hs⟩ := h2 o ho
+    rw [e1, hB r (List.mem_of_mem_take hr) o v hs]
+  have hl : l ≤ B.length := by
+    cases l with
+    | zero => exact Nat.zero_le _
+    | succ n =>
+      have hn := hbyte n (Nat.lt_succ_self n)
+      apply Classical.byContradiction
+      intro hh
+      have e1 : B[n]? = none := by rw [List.getElem?_eq_none_iff]; omega
+      have e2 : d[n]? = some d[n] := List.getElem?_eq_getElem (by omega)
+      rw [e1, e2] at hn
+      cases hn
+  refine ⟨hl, ?_⟩
+  apply List.ext_getElem?
+  intro o
+  rw [List.getElem?_take, List.getElem?_take]
+  by_cases ho : o < l
+  · rw [if_pos ho, if_pos ho]; exact hbyte o ho
+  · rw [if_neg ho, if_neg ho]
+
+/-- HOSTILE SERVER, per-block mode (no reassembly buffer): whatever the handler is given — a block, the completing block,
+a random-access block — is the payload of THIS response at the offset its own Block2 option names -/
+theorem block2_hostile_per_block (cap : Nat) (junk : UInt8) (st : Option Crcv) (r : Resp) :
+    (∀ off p total nx, (crcvStep false cap junk st r).2 = CrcvOut.block off p total nx →
+      ∃ num m szx, r.blk = some (num, m, szx) ∧ off = num * 2 ^ (szx + 4) ∧ p = r.payload) ∧
+    (∀ off p total, (crcvStep false cap junk st r).2 = CrcvOut.last off p total →
+      ∃ num m szx, r.blk = some (num, m, szx) ∧ off = num * 2 ^ (szx + 4) ∧ p = r.payload) ∧
+    (∀ off p total, (crcvStep false cap junk st r).2 = CrcvOut.randomAccess off p total →
+      ∃ num m szx, r.blk = some (num, m, szx) ∧ off = num * 2 ^ (szx + 4) ∧ p = r.payload) ∧
+    (∀ d l, (crcvStep false cap junk st r).2 ≠ CrcvOut.body d l) :=
+  crcvStep_perblock_payload cap junk st r
+
 set_option maxRecDepth 100000 in
-/-- WITNESS (excluded by `Genuine2`, outside the property's quantifier: a libcoap server refuses a changed SZX with 4.00):
-a server that switches from 16-byte to 32-byte blocks in mid-transfer makes the client deliver a 55-byte "body" whose
-bytes 16..31 were never written (`junk` = 0xEE here); the real function does the same (`crcv 1 55 7 55 0.1.0.0.42,…`). -/
+/-- the hypotheses are satisfiable and the conclusion is not vacuous: a server that sends blocks 0, 1 of 16 bytes, then
+"block 1 of 32 bytes" (refused, 4.08), then goes on in 16-byte blocks: the 55-byte body is delivered, every byte sent -/
 example :
     let body : Bytes := (List.range 55).map (fun i => UInt8.ofNat i)
     let rsp (k m szx : Nat) : Resp := { blk := some (k, m, szx), payload := slice body szx k, size2 := some 55 }
-    ((runCrcv true 4 0xEE none [rsp 0 1 0, rsp 2 1 0, rsp 1 0 1]).getLast?.map fun o => match o with
-      | .body d l => (l, d.take l == body, (d.drop 16).take 2) | _ => (0, false, [])) = some (55, false, [0xEE, 0xEE]) := by
+    runCrcv true 4 0xEE none [rsp 0 1 0, rsp 1 1 0, rsp 1 0 1, rsp 2 1 0, rsp 3 0 0] =
+      [.next 1 0, .next 2 0, .err408, .next 3 0, .body body 55] := by decide
+
+set_option maxRecDepth 100000 in
+/-- FORMER WITNESS (a), now the fixed behaviour (a8ffb89): a server that switches from 16-byte to 32-byte blocks in
+mid-transfer (`crcv 1 55 7 55 0.1.0.0.42,2.1.0.0.42,1.0.1.0.42,3.0.0.0.42`) used to make the client deliver a 55-byte
+"body" whose bytes 16..31 were never written; now the response in the other size is answered by 4.08 and nothing is
+recorded, and the short last block that cannot complete the body makes the client forget the transfer (2e4f34e) -/
+example :
+    let body : Bytes := (List.range 55).map (fun i => UInt8.ofNat i)
+    let rsp (k m szx : Nat) : Resp := { blk := some (k, m, szx), payload := slice body szx k, size2 := some 55 }
+    runCrcv true 4 0xEE none [rsp 0 1 0, rsp 2 1 0, rsp 1 0 1, rsp 3 0 0] = [.next 1 0, .next 3 0, .err408, .err408] ∧
+    ((crcvStep true 4 0xEE (crcvStep true 4 0xEE (crcvStep true 4 0xEE none (rsp 0 1 0)).1 (rsp 2 1 0)).1 (rsp 1 0 1)).1.map
+      fun s => s.recv) = some [(0, 0), (2, 2)] := by
   decide
 
 set_option maxRecDepth 100000 in
-/-- WITNESS (excluded by the constant Size2 of `Genuine2`; unreachable with a client that asks for one block at a
-time from a libcoap server): an unrequested block 5 without Size2 followed by block 0 announcing Size2 = 100 shrinks
-the buffer from 97 to 16 bytes (coap_block_build_body is called with this response's Size2, not the running total) -/
+/-- FORMER WITNESS (b), now the fixed behaviour (0b3fb08): an unrequested block 5 without Size2 followed by block 0
+announcing Size2 = 100 used to shrink the buffer from 97 to 16 bytes (coap_block_build_body is called with this
+response's Size2, not the running total) while block 5 stayed recorded; now the buffer keeps its 97 bytes -/
 example :
     let body : Bytes := (List.range 100).map (fun i => UInt8.ofNat i)
     ((crcvStep true 4 0 (crcvStep true 4 0 (some {}) { blk := some (5, 1, 0), payload := slice body 0 5 }).1
-      { blk := some (0, 1, 0), payload := slice body 0 0, size2 := some 100 }).1.map fun s => (s.recv, s.body.map (·.length))) =
-      some ([(0, 0), (5, 5)], some 16) := by decide
+      { blk := some (0, 1, 0), payload := slice body 0 0, size2 := some 100 }).1.map fun s =>
+        (s.recv, s.body.map (·.length), s.body.map (fun b => (b.drop 80).take 16 == slice body 0 5))) =
+      some ([(0, 0), (5, 5)], some 97, some true) := by decide
+
+set_option maxRecDepth 100000 in
+/-- the third hole (2e4f34e): a block without More that is shorter than the block size, with blocks still missing
+(`crcv 1 100 7 - 0.1.0.0.0,2.0.0.0.0.5,1.1.0.0.0,3.1.0.0.0,4.0.0.0.0` delivered 80 bytes with 37..47 never written):
+now 4.08, and the lg_crcv starts afresh with the next response -/
+example :
+    let body : Bytes := (List.range 100).map (fun i => UInt8.ofNat i)
+    let rsp (k m : Nat) (p : Bytes) : Resp := { blk := some (k, m, 0), payload := p }
+    let s2 := crcvStep true 4 0xEE (crcvStep true 4 0xEE none (rsp 0 1 (slice body 0 0))).1 (rsp 2 0 ((slice body 0 2).take 5))
+    s2.2 = CrcvOut.err408 ∧ s2.1.map (·.initial) = some true ∧
+    ((crcvStep true 4 0xEE s2.1 (rsp 1 1 (slice body 0 1))).1.map fun s => (s.initial, s.recv)) = some (false, [(1, 1)]) := by
+  decide
 
 
 /-! ## Layer B, sender side (lg_xmit) and the release callback
@@ -373,36 +539,37 @@ example : (addDataLarge 1152 4 2 11 none 0 5000 1).map (fun r => (r.lgXmit, r.bl
 
 /-- Client, Block1: for EVERY lg_xmit and EVERY response matched to it (2.31 in order, duplicated, stale, renegotiating
 the size, or any other code): a block message the client builds carries exactly the body's slice for the NUM and SZX
-in its Block1 option, that SZX is the one of the response, and marker + payload fit the room the PDU has. -/
+in its Block1 option, that SZX is the one of the response — or the one in use, if the response asks for a larger one
+(`xmitB1Szx`, fix 650c3a2) — and marker + payload fit the room the PDU has. -/
 theorem client_block1_slices (x : LgXmit) (room : Nat) (ok : Bool) (blk : Option (Nat × Nat)) (st' : Option LgXmit)
     (n m s : Nat) (p : Bytes) (h : xmitB1Step x room ok blk = (st', B1Out.sendNext n m s p)) :
     n < nBlocks x.data.length s ∧ p = slice x.data s n ∧ 1 + p.length ≤ room ∧ p.length ≤ chunkSize s ∧
-    ∃ num0, blk = some (num0, s) := by
-  obtain ⟨a, b, c, d, _⟩ := xmitB1Step_spec x room ok blk st' n m s p h
-  refine ⟨a, b, c, ?_, d⟩
+    ∃ num0 szx, blk = some (num0, szx) ∧ s = xmitB1Szx x szx ∧ s ≤ x.blkSize := by
+  obtain ⟨a, b, c, ⟨num0, szx, d, e⟩, _⟩ := xmitB1Step_spec x room ok blk st' n m s p h
+  refine ⟨a, b, c, ?_, num0, szx, d, e, by rw [e]; exact (xmitB1Szx_facts x szx).1⟩
   rw [b, slice_length]
   exact Nat.min_le_left _ _
 
-/-- … and, along EVERY sequence of responses none of which asks for a LARGER block size than the lg_xmit currently
-uses (RFC 7959 §2.5 allows a server only to reduce it; a libcoap server never increases it), the lg_xmit stays well
-formed (`XmitInv`: offset aligned to the block size), early size renegotiation included, and every block message has
-the right More bit and follows the block the response acknowledged: the hypothesis `Genuine` of the server's receive
-automaton (`never_wrong_body_partial`) is discharged for a libcoap client, except for its SZX clause.
-FULL statement (not provable, see the witness below): the same without `hblk`.  What is missing: when a response asks
-for a larger size the C code ignores the request for `lg_xmit->blk_size` / `offset` but keeps `block.szx` of the
-response for the option and for slicing the payload, so M bit and position are computed in two different units. -/
-theorem client_block1_genuine_partial (x : LgXmit) (room : Nat) (ok : Bool) (blk : Option (Nat × Nat))
-    (hinv : XmitInv x) (hlen : x.data.length < 2 ^ 32) (hblk : ∀ num szx, blk = some (num, szx) → szx ≤ x.blkSize) :
+/-- … and, along EVERY sequence of responses — also those that ask for a LARGER block size than the lg_xmit uses, which
+RFC 7959 §2.5 does not allow a server and which the client ignores (fix 650c3a2; before it the SZX of such a response
+was used for the option and the payload while NUM and More were computed in the size in use: bytes skipped, wrong More
+bit, transfer ended in 5.00) — the lg_xmit stays well formed (`XmitInv`: offset aligned to the block size), its block
+size never grows, early size renegotiation included, and every block message has the right More bit and follows the
+block the response acknowledged: the hypothesis `Genuine` of the server's receive automaton
+(`never_wrong_body_partial`) is discharged for a libcoap client, except for its SZX clause.  Full statement: no
+hypothesis on the response any more. -/
+theorem client_block1_genuine (x : LgXmit) (room : Nat) (ok : Bool) (blk : Option (Nat × Nat))
+    (hinv : XmitInv x) (hlen : x.data.length < 2 ^ 32) :
     (∀ x', (xmitB1Step x room ok blk).1 = some x' → XmitInv x' ∧ x'.data = x.data ∧ x'.blkSize ≤ x.blkSize) ∧
     (∀ st' n m s p, xmitB1Step x room ok blk = (st', B1Out.sendNext n m s p) →
       p = slice x.data s n ∧ n < nBlocks x.data.length s ∧ m = more x.data.length s n ∧
       ∃ x', st' = some x' ∧ x'.blkSize = s ∧ x'.lastBlock = some (n - 1) ∧ 1 ≤ n ∧ x'.offset = n * 2 ^ (s + 4)) := by
   refine ⟨fun x' h => by
-    obtain ⟨a, b, c, _⟩ := xmitB1Step_inv x room ok blk x' hinv hlen hblk h
+    obtain ⟨a, b, c, _⟩ := xmitB1Step_inv x room ok blk x' hinv hlen h
     exact ⟨a, b, c⟩, ?_⟩
   intro st' n m s p h
-  obtain ⟨a, b, _, ⟨num0, d⟩, e⟩ := xmitB1Step_spec x room ok blk st' n m s p h
-  obtain ⟨e1, x', e2, _, e4, e5, e6, e7⟩ := e hinv (hblk num0 s d)
+  obtain ⟨a, b, _, _, e⟩ := xmitB1Step_spec x room ok blk st' n m s p h
+  obtain ⟨e1, x', e2, _, e4, e5, e6, e7⟩ := e hinv
   exact ⟨b, a, e1, x', e2, e4, e5, e6, e7⟩
 
 set_option maxRecDepth 100000 in
@@ -416,12 +583,15 @@ example :
   decide
 
 set_option maxRecDepth 100000 in
-/-- WITNESS for the excluded case: lg_xmit at 64-byte blocks, block 0 sent; a 2.31 asking for 256-byte blocks makes the
-client send "block 1 of 256 bytes" (bytes 256..399, bytes 64..255 are skipped) with M = 1 although it is the last one -/
+/-- FORMER WITNESS (c), now the fixed behaviour (650c3a2; `xmit1 2 400 3 1152 95.0.4,95.1.4`): lg_xmit at 64-byte blocks,
+block 0 sent; a 2.31 asking for 256-byte blocks used to make the client send "block 1 of 256 bytes" (bytes 256..399,
+bytes 64..255 skipped) with M = 1 although it was the last one; now it sends block 1 of 64 bytes with the right More bit -/
 example :
     let body : Bytes := (List.range 400).map (fun i => UInt8.ofNat (i % 251))
-    (xmitB1Step { data := body, blkSize := 2 } 1000 true (some (0, 4))).2 = B1Out.sendNext 1 1 4 (slice body 4 1) ∧
-    more 400 4 1 = 0 := by decide
+    (xmitB1Step { data := body, blkSize := 2 } 1000 true (some (0, 4))).2 = B1Out.sendNext 1 1 2 (slice body 2 1) ∧
+    more 400 2 1 = 1 ∧
+    ((xmitB1Step { data := body, blkSize := 2 } 1000 true (some (0, 4))).1.map fun y => (y.blkSize, y.offset, y.lastBlock)) =
+      some (2, 64, some 0) := by decide
 
 set_option maxRecDepth 100000 in
 /-- non-vacuity for the server side: block 2 of a 100-byte body at 32-byte blocks; a changed size is refused -/
